@@ -43,6 +43,8 @@ class Ctx:
         return os.path.join(self.work, *a)
 
     def cleanup(self):
+        if os.environ.get("VERIF_KEEP"):
+            return
         shutil.rmtree(self.work, ignore_errors=True)
         try:
             os.rmdir(os.path.join(VERIF, ".work"))
